@@ -74,7 +74,12 @@ Inductive step :=
 | SPause (d : N)                                 (* pause; a helper sends `wait 0` after d *)
 | SPark (w : option N) (hp : list (N * hact)).   (* a helper `wait d1; act1; wait d2; act2; ...` is started,
                                                     then `wait w` (Some w) or `pause` (None) *)
-Inductive res := RLit (d : dval) | RArg (j : nat) | RLocal.   (* end <literal> | end local.p<j> | end local.r *)
+Inductive res := RLit (d : dval) | RArg (j : nat) | RLocal | RLevel (k : N).
+  (* end <literal> | end local.p<j> | end local.r | end level.q<k> (a variable that outlives the thread) *)
+
+(* where a declared parameter is stored: local.p<j> of the new thread, or a variable of a longer-lived
+   object (level.q<k> / game.q<k> / parm.q<k>) *)
+Inductive ptarget := PLoc (j : nat) | PLev (k : N).
 Inductive fin :=
 | FEnd (r : res) | FEndNone | FFall
 | FKill (d : N)          (* pause; a helper deletes the thread after d *)
@@ -89,7 +94,8 @@ Inductive fin :=
 Record level := mkLevel { lpre : list step; lpost : list step; lfin : fin }.
 
 Inductive op :=
-| OCall (lbl : bool) (np : nat) (prog : list level) (args : list dval)   (* head of prog: the host-started thread *)
+| OCall (lbl : bool) (np : nat) (pt : list ptarget) (prog : list level) (args : list dval)
+    (* np parameters local.p1 .. local.p<np> when pt = [], else the targets pt; head of prog: the host-started thread *)
 | OCopy (r : N) | OReserve (r : N) | OMove (r : N) | ODestroy (r : N)
 | OAssign (r1 r2 : N) | OMoveAssign (r1 r2 : N)
 | OAdvance (dt : N) | OExecute | OReset.
@@ -113,14 +119,47 @@ Definition eval_res (params : list dval) (r : res) : dval :=
   | RArg O => DNil
   | RArg (S i) => nth i params DNil
   | RLocal => DNil
+  | RLevel _ => DNil
   end.
 
 Definition resolve (params : list dval) (f : fin) : fin :=
   match f with
   | FEnd RLocal => f
+  | FEnd (RLevel k) => f
   | FEnd r => FEnd (RLit (eval_res params r))
   | _ => f
   end.
+
+(* the prologue of a label with explicit targets: OP_STORE_PARAM + the store that follows it, one
+   declared parameter after the other: the next argument, or NIL when none is left, is stored in the
+   target - also when the target already holds a value (a variable of a longer-lived object, or a
+   local variable that was declared twice) *)
+Fixpoint lget {K : Type} (eqb : K -> K -> bool) (k : K) (l : list (K * dval)) : dval :=
+  match l with
+  | [] => DNil
+  | (k', v) :: r => if eqb k' k then v else lget eqb k r
+  end.
+
+Definition lset {K : Type} (k : K) (v : dval) (l : list (K * dval)) : list (K * dval) := (k, v) :: l.
+
+Fixpoint prologue (tg : list ptarget) (fast : list dval) (loc : list (nat * dval)) (lv : list (N * dval))
+  : list (nat * dval) * list (N * dval) :=
+  match tg with
+  | [] => (loc, lv)
+  | x :: tg' =>
+      let v := match fast with [] => DNil | a :: _ => a end in
+      let fast' := match fast with [] => [] | _ :: r => r end in
+      match x with
+      | PLoc j => prologue tg' fast' (lset j v loc) lv
+      | PLev k => prologue tg' fast' loc (lset k v lv)
+      end
+  end.
+
+Definition read_target (loc : list (nat * dval)) (lv : list (N * dval)) (x : ptarget) : dval :=
+  match x with PLoc j => lget Nat.eqb j loc | PLev k => lget N.eqb k lv end.
+
+Definition max_loc (tg : list ptarget) : nat :=
+  fold_right (fun x acc => match x with PLoc j => Nat.max j acc | PLev _ => acc end) O tg.
 
 (* ---------------------------------------------------------------- part 1: the cell heap *)
 
@@ -550,15 +589,16 @@ Record sched := mkSched {
   paused : list (N * tstate);                  (* paused threads and what they still run *)
   frame : N;                                   (* the engine's frame time *)
   clock : N;                                   (* the host's clock *)
-  sseq : N }.
+  sseq : N;
+  lvars : list (N * dval) }.                   (* the variables level.q<k> / game.q<k> / parm.q<k> *)
 
-Definition sched_init : sched := mkSched [] [] 0 0 0.
+Definition sched_init : sched := mkSched [] [] 0 0 0 [].
 
 Definition add_wait (s : sched) (d : N) (th : thr) : sched :=
-  mkSched (pend s ++ [mkW (frame s + d) (sseq s) th]) (paused s) (frame s) (clock s) (sseq s + 1).
+  mkSched (pend s ++ [mkW (frame s + d) (sseq s) th]) (paused s) (frame s) (clock s) (sseq s + 1) (lvars s).
 
 Definition pause (s : sched) (t : N) (ts : tstate) : sched :=
-  mkSched (pend s) (paused s ++ [(t, ts)]) (frame s) (clock s) (sseq s).
+  mkSched (pend s) (paused s ++ [(t, ts)]) (frame s) (clock s) (sseq s) (lvars s).
 
 Definition w_ltb (a c : waiter) : bool :=
   (wdue a <? wdue c) || ((wdue a =? wdue c) && (wseq a <? wseq c)).
@@ -640,6 +680,7 @@ Section Engine.
         match f with
         | FEnd (RLit d) => (s, h_end t (EVal d) h)
         | FEnd RLocal => (s, h_end t ELocal h)
+        | FEnd (RLevel k) => (s, h_end t (EVal (lget N.eqb k (lvars s))) h)
         | FEnd (RArg _) => (s, h_end t (EVal DNil) h)      (* not reached: resolved at the start *)
         | FEndNone | FFall => (s, h_end t ENone h)
         | FKill d => park (add_wait s d (THelper t true)) h t None (mkTS [] [] [] FNever)
@@ -678,7 +719,7 @@ Section Engine.
     end.
 
   Definition unpark (s : sched) (t : N) : sched :=
-    mkSched (filter (fun w => negb (is_main t w)) (pend s)) (del t (paused s)) (frame s) (clock s) (sseq s).
+    mkSched (filter (fun w => negb (is_main t w)) (pend s)) (del t (paused s)) (frame s) (clock s) (sseq s) (lvars s).
 
   (* where the thread t is parked and what it still runs *)
   Definition parked_ts (s : sched) (t : N) : option tstate :=
@@ -715,7 +756,7 @@ Section Engine.
         (* `t wait 0` on the paused thread: StartTiming(0) *)
         match lookup t (paused s) with
         | Some ts =>
-            (add_wait (mkSched (pend s) (del t (paused s)) (frame s) (clock s) (sseq s)) 0 (TMain t ts), h_suspend t h)
+            (add_wait (mkSched (pend s) (del t (paused s)) (frame s) (clock s) (sseq s) (lvars s)) 0 (TMain t ts), h_suspend t h)
         | None => (s, h)
         end
     | THelper t true =>
@@ -739,7 +780,7 @@ Section Engine.
         else match fuel with
              | O => (s, h, false)
              | S f' =>
-                 let s1 := mkSched (remove_w (wseq m) (pend s)) (paused s) (frame s) (clock s) (sseq s) in
+                 let s1 := mkSched (remove_w (wseq m) (pend s)) (paused s) (frame s) (clock s) (sseq s) (lvars s) in
                  let '(s2, h2) := run_thr s1 h (wthr m) in
                  resume f' s2 h2
              end
@@ -752,12 +793,19 @@ Section Engine.
   Definition step_op (st : sched * H) (o : op) : (sched * H) * obs :=
     let '(s, h) := st in
     match o with
-    | OCall lbl np prog args =>
+    | OCall lbl np pt prog args =>
         let '(h1, t) := h_begin lbl h in
         if lbl then
-          let params := bind np args in                       (* SetFastData + OP_STORE_PARAM *)
+          (* SetFastData + the prologue: OP_STORE_PARAM and the store of every declared parameter *)
+          let '(params, locvals, lv) :=
+            match pt with
+            | [] => (bind np args, bind np args, lvars s)
+            | _ => let '(loc, lv) := prologue pt args [] (lvars s) in
+                   (map (read_target loc lv) pt, map (fun j => lget Nat.eqb j loc) (seq 1 (max_loc pt)), lv)
+            end in
+          let s0 := mkSched (pend s) (paused s) (frame s) (clock s) (sseq s) lv in
           let l0 := match prog with l :: _ => l | [] => mkLevel [] [] FFall end in
-          let '(s1, h2) := run_st s h1 t (lpre l0) (tl prog) (lpost l0) (resolve params (lfin l0)) in
+          let '(s1, h2) := run_st s0 h1 t (lpre l0) (tl prog) (lpost l0) (resolve locvals (lfin l0)) in
           let '(s2, h3, ok) := resume (weight s1) s1 (h_tail t h2) in   (* ScriptExecuteInternal: ExecuteRunning *)
           let h4 := h_finish true t args h3 in
           ((s2, h4), mk_obs (COk (h_alive t h4) params) s2 h4 ok)
@@ -771,14 +819,15 @@ Section Engine.
     | OAssign a b => let h' := h_assign a b h in ((s, h'), mk_obs CNone s h' true)
     | OMoveAssign a b => let h' := h_massign a b h in ((s, h'), mk_obs CNone s h' true)
     | OAdvance dt =>
-        let s' := mkSched (pend s) (paused s) (frame s) (clock s + dt) (sseq s) in
+        let s' := mkSched (pend s) (paused s) (frame s) (clock s + dt) (sseq s) (lvars s) in
         ((s', h), mk_obs CNone s' h true)
     | OExecute =>
-        let s1 := mkSched (pend s) (paused s) (clock s) (clock s) (sseq s) in
+        let s1 := mkSched (pend s) (paused s) (clock s) (clock s) (sseq s) (lvars s) in
         let '(s2, h2, ok) := resume (weight s1) s1 h in
         ((s2, h2), mk_obs CNone s2 h2 ok)
     | OReset =>
-        let s' := mkSched [] [] (frame s) (clock s) (sseq s) in
+        (* ClearAll also empties the variable lists of game, level and parm *)
+        let s' := mkSched [] [] (frame s) (clock s) (sseq s) [] in
         let h' := h_reset h in
         ((s', h'), mk_obs CNone s' h' true)
     end.
